@@ -22,7 +22,7 @@ CFG = dict(
         "stack model: one unit per parse_expr_bp activation (the depth counter); that every activation uses a bounded number of Rust frames is read off the source (gen_recursion_guarded_parser) and confirmed by the deep-nesting corpus, not proved",
         "token spelling/lexing of the fragment (harness prints tokens with its own spelling table and maps spans back to token indices)",
     ],
-    assumptions=["'text = direct engine call' is a differential test (twin routers: INSERT/UPDATE/DELETE/SELECT text through execute_parsed vs the direct RelationalEngine calls, WHERE clauses printed with the minimal parentheses of the documented precedence) and, for the vectorised/indexed relational strategies, C04's text kind; graph/vector/vault statement families are not compared"],
+    assumptions=["'text = direct engine call' is a differential test (twin routers: INSERT/UPDATE/DELETE/SELECT text through execute_parsed vs the direct RelationalEngine calls, WHERE clauses printed with the minimal parentheses of the documented precedence; plus statement sequences with CREATE/DROP TABLE, index DDL, no-op UPDATE/DELETE and repeated SELECT texts on routers with the query cache ON and OFF against direct calls; plus cache-on vs cache-off transparency for NODE/EDGE/NEIGHBORS/EMBED/SIMILAR) and, for the vectorised/indexed relational strategies, C04's text kind; graph/vector/vault statement families are not compared"],
 )
 MANIFEST = dict(
     text="Known finding legacy-execute-parentheses (QueryRouter::execute, the legacy string-splitting entry point, has no parentheses; refutation witness proved and replayed; its AND/OR mis-grouping was fixed in 03a8e25d). Pratt round trip proved in Coq for ANY well-formed binding-power table (infix left-assoc, prefix, postfix IS NULL/IN/LIKE/BETWEEN, parentheses, tuples, depth guard): parse(print_min(e)) = e for every tree within the nesting limit, with print_min using the DOCUMENTED precedence; stack bound MAX_DEPTH+1 activations for the guarded parser on every input, and unboundedness of the unguarded loop (the defect fixed in 39e07efb). Both binding-power tables, prefix power, MAX_DEPTH, guards, token maps, the call-graph guard fact and three documented precedence tables are regenerated from the source on every run and WellFormedTable / tables_agree / doc agreement re-proved by computation. The model is compared with both real parsers (expr.rs ExprParser, parser.rs Parser) on printed trees and mutated token strings incl. error kind and position. Statement grammar and lexer: fuzz oracle in a child process (partial).",
